@@ -59,22 +59,33 @@ type cache struct {
 func (c *cache) Write(ctx context.Context, hash string, b *block.Block) error {
 	logging.Logger.Info(fmt.Sprintf("Writing %v to cache", hash))
 
-	bPath := filepath.Join(c.path, hash)
-	f, err := os.Create(bPath)
-	if err != nil {
-		return err
-	}
-	defer f.Close()
-
 	buffer := new(bytes.Buffer)
-	err = datastore.WriteMsgpack(buffer, b)
+	err := datastore.WriteMsgpack(buffer, b)
 	if err != nil {
 		return err
 	}
 
-	data := buffer.Bytes()
-	_, err = f.Write(data)
+	// Write and Read(from disk) both refresh the cache from their own goroutine. Truncating and rewriting
+	// the cache file in place lets a concurrent reader (or a second writer: two msgpack encodings of one
+	// block differ in map order) see a splice that still decodes, to a different block. Write a private
+	// file and rename it into place atomically.
+	bPath := filepath.Join(c.path, hash)
+	f, err := os.CreateTemp(c.path, hash+".tmp-*")
 	if err != nil {
+		return err
+	}
+	data := buffer.Bytes()
+	if _, err = f.Write(data); err != nil {
+		f.Close()
+		os.Remove(f.Name())
+		return err
+	}
+	if err = f.Close(); err != nil {
+		os.Remove(f.Name())
+		return err
+	}
+	if err = os.Rename(f.Name(), bPath); err != nil {
+		os.Remove(f.Name())
 		return err
 	}
 
